@@ -342,8 +342,11 @@ pub fn roundtrip_value(rng: &mut Rng) -> Rt {
     let mut classes = Vec::new();
     let v = match rng.below(40) {
         0 => {
-            classes.push("deep-100");
-            gen_deep(rng, 100)
+            // around every depth at which an implementation might bound recursion: what the
+            // encoder emits must decode again (a typed refusal by the encoder is lawful)
+            let d = *rng.pick(&[31usize, 32, 33, 63, 64, 65, 100, 126, 127, 128, 129, 130, 131, 200, 255, 256, 257, 400, 1000]);
+            classes.push("deep-nesting");
+            gen_deep(rng, d)
         }
         1 => {
             classes.push("wide-2000");
